@@ -1,12 +1,15 @@
-/- line-protocol driver for C06: `drv_c06 callconv` (see Driver/CallConvCmd.lean), `drv_c06 args` (Driver/C06ArgsCmd.lean).
+/- line-protocol driver for C06: `drv_c06 callconv` (see Driver/CallConvCmd.lean), `drv_c06 args` (Driver/C06ArgsCmd.lean),
+   `drv_c06 ret` (Driver/C06RetCmd.lean).
    Core Lean only (nothing imported here may import Mathlib, or the executable will not link). -/
 import ChibiVerif.Driver.CallConvCmd
 import ChibiVerif.Driver.C06ArgsCmd
+import ChibiVerif.Driver.C06RetCmd
 
 def main (args : List String) : IO UInt32 := do
   match args with
   | "callconv" :: _ => ChibiVerif.Driver.CallConvCmd.main
   | "args" :: _ => ChibiVerif.Driver.C06ArgsCmd.main
+  | "ret" :: _ => ChibiVerif.Driver.C06RetCmd.main
   | _ =>
-    IO.eprintln "usage: drv_c06 callconv | args"
+    IO.eprintln "usage: drv_c06 callconv | args | ret"
     return 2
